@@ -538,6 +538,9 @@ class RunModel(Analysis):
             self.ev(ip, 'COUNTCMP', node, st, fr, term=term, val=val)
             if val:
                 st = st.set(count_ok=term)
+        if (term[0] == 'mcall' and term[2] == 'is_critical') or T.is_attr(term, 'critical'):
+            # criticality of a job is configuration: what a branch learnt stays true
+            st = st.set(crit=(term, val))
         g = self.roles.guard_attr
         if g and term == T.mk(('attr', T.SELF, g)) and not val:
             st = st.set(gtested=True)
